@@ -310,8 +310,8 @@ def run_replay(rec):
 # tiers
 
 TIERS = {
-    'quick': dict(sched=2500, fault=1800, enum=True, merge_k=[1, 2, 3, 4, 5, 6], merge_reps={1: 2, 2: 2, 3: 2, 4: 2, 5: 1, 6: 1},
-                  quad=220, f5=160, real_frac=0.03, budget=420),
+    'quick': dict(sched=3200, fault=2600, enum=True, merge_k=[1, 2, 3, 4, 5, 6], merge_reps={1: 2, 2: 2, 3: 2, 4: 2, 5: 1, 6: 1},
+                  quad=320, f5=160, real_frac=0.03, budget=420),
     'thorough': dict(sched=10 ** 9, fault=10 ** 9, enum=True, merge_k=[1, 2, 3, 4, 5, 6], merge_reps={1: 6, 2: 6, 3: 6, 4: 6, 5: 4, 6: 3},
                      quad=10 ** 9, f5=1500, real_frac=0.05, budget=1200),
 }
